@@ -342,7 +342,7 @@ def run(rep: common.Report):
     # bounded stand-in on the real function: every alignment of every width with the boundary
     b = Bounded("C06.bnd.alignments", "parser:foldline / Contentline / Component.to_ical (real)",
                 "lines of length 60..160 built from a prefix of 1-octet characters and every sequence of <= 3 characters of widths 1-4, CR, "
-                "space, tab at every alignment with the 75-octet boundary; seeded long mixed lines; a serialised Event with long properties")
+                "space, tab at every alignment with the 75-octet boundary; seeded long mixed lines; lines assembled by Contentline.from_parts with wide characters in the parameters only / the value only / both; a serialised Event with long properties")
     t0 = time.time()
     try:
         bounded(b, rep.tier, rep.seed)
@@ -436,6 +436,34 @@ def bounded(b, tier, seed):
             n += 1
             if len(p) > 75:
                 fails.setdefault("component", {"witness": {"component": "event", "summary": summary}, "detail": f"an Event with SUMMARY {summary!r} is serialised with a {len(p)}-octet line"})
+    # lines assembled from parts (Contentline.from_parts: what Component.content_line hands to Contentlines): wide characters in the
+    # parameters only, in the value only, in both - the width of a line is the width of all of its parts
+    from icalendar.parser import Parameters
+    from icalendar.prop import vText, vCalAddress
+    _, _, _, Contentline = native_fold()
+    for pv in ("plain", "\u5c71\u7530\u592a\u90ce" * 8, "\u00e9" * 70, "\U0001F600" * 20, "a" * 60 + "\u20ac" * 9):
+        for val in ("mailto:someone@example.com", "x" * 120, "\u4f1a" * 40, "y" * 70 + "\u00e9"):
+            for typed in (vText(val), vCalAddress(val)):
+                line = Contentline.from_parts("ATTENDEE", Parameters({"CN": pv}), typed)
+                n += 1
+                try:
+                    emitted = line.to_ical().split(b"\r\n")
+                    for p_ in emitted:
+                        p_.decode("utf-8")
+                    bad = max(len(p_) for p_ in emitted) > 75
+                    back = str(Contentline.from_ical(line.to_ical())) != str(line)
+                except UnicodeDecodeError:
+                    bad, back = True, False
+                if bad or back:
+                    fails.setdefault("from_parts", {"witness": {"from_parts": ["ATTENDEE", {"CN": pv}, val]},
+                                                    "detail": f"Contentline.from_parts('ATTENDEE', CN={pv!r}, {val!r}).to_ical(): "
+                                                              + ("a physical line over 75 octets or split inside a character" if bad else "does not unfold to the line")})
+    e = Event()
+    e.add("attendee", "mailto:someone@example.com", parameters={"CN": "\u5c71\u7530\u592a\u90ce" * 8})
+    for p in e.to_ical().split(b"\r\n"):
+        n += 1
+        if len(p) > 75:
+            fails.setdefault("component", {"witness": {"component": "event", "attendee_cn": "\u5c71\u7530\u592a\u90ce" * 8}, "detail": f"an Event with a wide CN parameter is serialised with a {len(p)}-octet line"})
     e = Event()
     e.add("summary", "ä" * 100 + "\U0001F600" * 40)
     e.add("description", "x" * 200 + "\r" + "y" * 100)
@@ -451,6 +479,17 @@ def bounded(b, tier, seed):
 def replay(payload: dict) -> int:
     w = payload.get("witness") or {}
     line = w.get("line") or w.get("input")
+    if w.get("from_parts"):
+        from icalendar.parser import Parameters
+        from icalendar.prop import vText
+        _, _, _, Contentline = native_fold()
+        nm, ps, val = w["from_parts"]
+        cl = Contentline.from_parts(nm, Parameters(ps), vText(val))
+        emitted = cl.to_ical().split(b"\r\n")
+        widest = max(len(x) for x in emitted)
+        ok = widest <= 75 and str(Contentline.from_ical(cl.to_ical())) == str(cl)
+        print("replay: from_parts line, widest physical line", widest, "octets;", "no violation on the current tree" if ok else "violation")
+        return 0 if ok else 1
     if line is None:
         print("replay: no concrete input recorded;", payload.get("verifier_output"))
         return 1
